@@ -91,7 +91,13 @@ func runReadThrough(id string, variant int, kind, repl string, steps []rtStep, w
 			switch st.Op {
 			case "Get":
 				var data []byte
-				data, err = Consume(ba.Get(ctx, u.Digest(st.Objs[0], "")), variant/9)
+				if (variant/27)%2 == 1 {
+					// the same read through the composite path: the child is the whole parent
+					d := u.Digest(st.Objs[0], "")
+					data, err = Consume(ba.GetFromComposite(ctx, d, d, identitySlicer{}), variant/9)
+				} else {
+					data, err = Consume(ba.Get(ctx, u.Digest(st.Objs[0], "")), variant/9)
+				}
 				if err == nil {
 					o["res"] = "Data"
 					if string(data) != string(u.Data(st.Objs[0])) {
